@@ -54,6 +54,18 @@ def _worker_init(modname):
     global _MOD
     import importlib
     _MOD = importlib.import_module(modname)
+    # bound the address space of a worker: a case whose evaluation blows up
+    # (clearing many orbital-energy brackets with high powers can need tens
+    # of GB) then fails with MemoryError and is reported as a cap instead of
+    # waking the kernel's OOM killer
+    try:
+        import resource
+        gb = float(os.environ.get("VERIF_MEM_GB",
+                                  getattr(_MOD, "MEM_LIMIT_GB", 10)))
+        lim = int(gb * 1024 ** 3)
+        resource.setrlimit(resource.RLIMIT_AS, (lim, lim))
+    except Exception:  # noqa
+        pass
     init = getattr(_MOD, "worker_init", None)
     if init:
         init()
@@ -71,6 +83,14 @@ def _run_one(case):
         res = {"status": "cap", "key": "timeout:" + json.dumps(case, default=str),
                "outcome": "timeout", "nontrivial": False, "transitions": 1,
                "detail": f"timeout after {timeout}s"}
+    except MemoryError:
+        import gc
+        gc.collect()
+        res = {"status": "cap", "key": "memory:" + json.dumps(case, default=str),
+               "outcome": "memory-limit", "nontrivial": False,
+               "transitions": 1,
+               "detail": "MemoryError under the per-worker address-space "
+                         "limit"}
     except Exception:
         res = {"status": "violation", "key": "exc:" + json.dumps(case, default=str),
                "outcome": "harness-exception", "nontrivial": False,
@@ -138,7 +158,7 @@ def run_check(modname, tier, seed, replay=None, nproc=None, max_cases=None):
         per_case = getattr(mod, "CASE_TIMEOUT", None) or 1800
         stall = per_case * max(len(c) for c in chunks) + 900
         with ctx.Pool(nproc, initializer=_worker_init, initargs=(modname,),
-                      maxtasksperchild=1 if fresh else 200) as pool:
+                      maxtasksperchild=1 if fresh else 50) as pool:
             it = pool.imap_unordered(_run_chunk, chunks)
             while True:
                 try:
